@@ -52,19 +52,19 @@ func runFocused(t *testing.T, id, rule string, o HistOpts, quick, thorough int, 
 
 func TestC01(t *testing.T) {
 	runFocused(t, "C01", histGen+"; after every step a drawn read and at the end a full sweep: per asset, balances of the volumes listing (now / PIT / window, both date modes, grouped) and aggregated balances (now / PIT) must sum to zero; non-trivial = >= 1 multi-touch or self-posting transaction and >= 1 revert; distinct = by operation history",
-		HistOpts{Features: GenFeatures, Steps: 25, Scripts: true, Reverts: true, Metadata: false, Reads: true, FinalReads: true, PITReads: true, MaxPostings: 5}, 400, 900,
+		HistOpts{Features: GenFeatures, Steps: 25, Scripts: true, Reverts: true, Metadata: false, Reads: true, FinalReads: true, PITReads: true, MaxPostings: 5, SecondLedger: true}, 400, 900,
 		func(s *HistorySummary) bool { return (s.MultiTouch >= 1 || s.SelfPosting >= 1) && s.Reverts >= 1 })
 }
 
 func TestC03(t *testing.T) {
 	runFocused(t, "C03", histGen+"; every committed transaction's postCommitVolumes (in the write response and in every later listing, any page size/order, with or without PIT) must equal the fold up to that transaction for exactly the touched account/asset pairs; preCommitVolumes are checked through the JSON rendering; non-trivial = >= 1 transaction touching one account/asset several times and >= 3 commits; distinct = by operation history",
-		HistOpts{Features: GenFeatures, Steps: 25, Scripts: true, Reverts: true, Reads: true, FinalReads: true, PITReads: true, MaxPostings: 8}, 400, 900,
+		HistOpts{Features: GenFeatures, Steps: 25, Scripts: true, Reverts: true, Reads: true, FinalReads: true, PITReads: true, MaxPostings: 8, SecondLedger: true}, 400, 900,
 		func(s *HistorySummary) bool { return s.MultiTouch >= 1 && s.Commits >= 3 })
 }
 
 func TestC05(t *testing.T) {
 	runFocused(t, "C05", histGen+"; reads at generated instants (exactly on, 1us before/after, and far from recorded effective/insertion/revert dates) with optional start of window, both date modes and grouping: transactions, accounts (+volumes/effectiveVolumes), volumes, aggregated balances are compared with the fold of the model's moves in that window; non-trivial = >= 1 back-dated transaction, >= 1 revert and >= 1 PIT read; distinct = by operation history",
-		HistOpts{Features: FullFeatures, Steps: 25, Scripts: false, Reverts: true, Metadata: true, Reads: true, FinalReads: true, PITReads: true}, 400, 900,
+		HistOpts{Features: FullFeatures, Steps: 25, Scripts: false, Reverts: true, Metadata: true, Reads: true, FinalReads: true, PITReads: true, SecondLedger: true}, 400, 900,
 		func(s *HistorySummary) bool { return s.BackDated >= 1 && s.Reverts >= 1 && s.PITReads >= 1 })
 }
 
@@ -115,7 +115,7 @@ func TestC15(t *testing.T) {
 
 func TestC17(t *testing.T) {
 	runFocused(t, "C17", histGen+", biased to metadata operations, over the 4 combinations of the two metadata-history features; current metadata must equal last-write-wins minus deletions; reads at generated instants must return the metadata as of that instant when the resource's history feature is SYNC and the current metadata when it is DISABLED; non-trivial = >= 3 metadata writes and >= 1 PIT read; distinct = by operation history",
-		HistOpts{Features: GenFeatures, Steps: 30, Scripts: true, Reverts: true, Metadata: true, Reads: true, FinalReads: true, PITReads: true}, 400, 900,
+		HistOpts{Features: GenFeatures, Steps: 30, Scripts: true, Reverts: true, Metadata: true, Reads: true, FinalReads: true, PITReads: true, SecondLedger: true}, 400, 900,
 		func(s *HistorySummary) bool { return s.MetaOps >= 3 && s.PITReads >= 1 })
 }
 
